@@ -240,6 +240,14 @@ def classes():
                 raise_kind(spec["ctorF"], "ctor", "ctor")
 
         @rpc_method
+        def hold(self):
+            # a method that keeps the object busy until the harness opens the gate
+            st = self.spec["state"]
+            st["entered"] += 1
+            st["ev"].wait()
+            return "released"
+
+        @rpc_method
         def relay(self):
             # a plain object's method that is itself blocked in a call to the peer
             return self._context.get_rpc_object_by_name("p0.gate").block()
@@ -1057,7 +1065,7 @@ def run_history(seed, cfg_tcp: bool, ops, policy="weighted") -> Trace:
 def qline(op) -> str:
     k = op[0]
     if k == "qstart":
-        _, valid, cfg_tcp, tcpF, udpF, peers = op
+        _, valid, cfg_tcp, tcpF, udpF, peers = op[:6]
         return f"qstart {int(valid)} {int(cfg_tcp)} {int(tcpF)} {int(udpF)} " + ("".join(str(int(b)) for b in peers) or "-")
     if k in ("qstop", "qcontext"):
         return k
@@ -1105,7 +1113,9 @@ def run_singleton(seed, ops, policy="weighted") -> Trace:
                 c.stop()
                 del peers_ctx[i]
 
-        def qstart(valid, cfg_tcp, tcpF, udpF, peers):
+        def qstart(valid, cfg_tcp, tcpF, udpF, peers, logF=0):
+            if logF:
+                return qstart_logging(valid, cfg_tcp, logF)
             for i, up in enumerate(peers):
                 set_peer(i, up)
             cfg = {"c1": {"connect_to_peers": [f"p{i}" for i in range(len(peers))]}}
@@ -1120,6 +1130,47 @@ def run_singleton(seed, ops, policy="weighted") -> Trace:
             finally:
                 w.net.busy_ports = set()
                 REC.udp_fail = False
+
+        def qstart_logging(valid, cfg_tcp, logF):
+            """qmi.start() with logging initialisation switched on and a logging configuration that cannot be applied
+            (start step `_init_logging`): log directory below a regular file, unknown level names"""
+            import json
+            import logging as _lg
+            import os
+            import sys as _sys
+            import tempfile
+            from qmi.core import logging_init as _li
+            tr.no_model = True
+            with tempfile.TemporaryDirectory() as d:
+                blocker = os.path.join(d, "not-a-directory")
+                with open(blocker, "w") as f:
+                    f.write("x")
+                conf = {"logdir": {"log_dir": os.path.join(blocker, "logs"), "logging": {"logfile": "qmi.log"}},
+                        "loglevel": {"logging": {"loglevel": "BOGUS"}},
+                        "console": {"logging": {"console_loglevel": "LOUD"}},
+                        "loglevels": {"logging": {"loglevels": {"qmi.core": "NOPE"}}}}[logF]
+                cf = os.path.join(d, "qmi.conf")
+                with open(cf, "w") as f:
+                    json.dump(conf, f)
+                saved = (_lg.root.handlers[:], _lg.root.level, _sys.excepthook, _li._file_handler, _li._saved_except_hook,
+                         _lg.root.manager.disable)
+                try:
+                    cfg = {"c1": {"tcp_server_port": PORT}} if cfg_tcp else {"c1": {}}
+                    qmi.start("c1" if valid else "bad ctx", config_file=cf, init_logging=True, context_cfg=cfg)
+                finally:
+                    for h in _lg.root.handlers[:]:
+                        if h not in saved[0]:
+                            _lg.root.removeHandler(h)
+                            try:
+                                h.close()
+                            except Exception:  # noqa
+                                pass
+                    _lg.root.handlers[:] = saved[0]
+                    _lg.root.setLevel(saved[1])
+                    _sys.excepthook = saved[2]
+                    _li._file_handler, _li._saved_except_hook = saved[3], saved[4]
+                    _lg.captureWarnings(False)
+                    _lg.disable(saved[5])
 
         try:
             for op in ops:
@@ -1628,6 +1679,168 @@ def oracle_acts(spec: dict, tr: Trace):
         bad.append(("acts:act-hangs", f"{res['acts']}", 0))
     if res["probe"] != "ok":
         bad.append(("acts:cannot-start-again", f"new context afterwards: {res['probe']}", 0))
+    return bad
+
+
+REQ_KINDS = ["get_name", "lock", "lock_token", "unlock", "unlock_token", "force_unlock", "is_locked"]
+QUEUE_SPECS = [
+    {"local": ["lock", "is_locked", "get_name"], "peer": [], "action": "remove"},
+    {"local": ["force_unlock", "unlock_token", "get_name"], "peer": ["lock", "is_locked"], "action": "stop"},
+    {"local": ["get_name", "unlock"], "peer": ["lock_token", "get_name", "force_unlock"], "action": "remove"},
+    {"local": REQ_KINDS, "peer": [], "action": "stop"},
+    {"local": [], "peer": REQ_KINDS, "action": "remove"},
+    {"local": ["is_locked"], "peer": ["unlock"], "action": "stop", "prelock": True},
+    {"local": ["lock_token", "lock"], "peer": ["is_locked", "unlock_token"], "action": "remove", "prelock": True},
+]
+
+
+def _request(proxy, kind):
+    if kind == "get_name":
+        return proxy.get_name()
+    if kind == "lock":
+        return proxy.lock()
+    if kind == "lock_token":
+        return proxy.lock(lock_token="tok")
+    if kind == "unlock":
+        return proxy.unlock()
+    if kind == "unlock_token":
+        return proxy.unlock(lock_token="tok")
+    if kind == "force_unlock":
+        return proxy.force_unlock()
+    if kind == "is_locked":
+        return proxy.is_locked()
+    raise ValueError(kind)
+
+
+def run_queued(seed, spec: dict, policy="weighted", change_points=None) -> Trace:
+    """an object is busy executing a method while requests of EVERY kind it accepts (method call, lock, unlock, force_unlock,
+    is_locked, with and without tokens; local and from a peer context) wait in its queue; then remove()/stop() arrives and the
+    method finishes.  Every requester must get its answer, the object is released once, its thread ends.
+    The manager/worker events are trace-refined against Mgr.mstep like the racing-calls family."""
+    tr = Trace()
+    tr.obs_pending = ["queued", spec]
+
+    def body(w):
+        from harness import detsched as D
+        from qmi.core.context import QMI_Context
+        REC.world = w
+        REC.flags["calltrace"] = True
+        r = Runner1(w, True)
+        st = r.busy_state
+        st["ev"] = D.Event()
+        r.new()
+        ctx = r.ctx
+        rec = REC.of(ctx)
+        res = {"setup": [r.do(["start", 0, 0]), r.do(["make", "rpc", 1, "a", 0, int(spec.get("relF", 0)), "loop", 0])], "req": []}
+        cli = None
+        if spec["peer"]:
+            cli = QMI_Context("cli")
+            cli.start()
+            cli.connect_to_peer("c1", "localhost:%d" % PORT)
+        mgr = ctx._rpc_object_map["a"]
+        worker = mgr._rpc_thread
+        if spec.get("prelock"):
+            res["setup"].append("ok" if r.proxies[(1, "rpc")].lock() else "lock-refused")
+        holder_proxy = r.proxies[(1, "rpc")] if spec.get("prelock") else ctx.get_rpc_object_by_name("c1.a")
+        hold_out = []
+
+        def holder():
+            try:
+                hold_out.append(holder_proxy.hold())
+            except D.SchedAbort:
+                hold_out.append("never-answered")
+                raise
+            except BaseException as e:  # noqa
+                hold_out.append(type(e).__name__)
+        th = w.spawn(holder, "holder")
+        w.sched.yield_point("c12.queued.hold", blocked_on=lambda: st["entered"] >= 1)
+
+        def mk_req(where, kind):
+            out = []
+            res["req"].append((where, kind, out))
+
+            def run():
+                try:
+                    p = (cli if where == "peer" else ctx).make_proxy(desc)
+                    v = _request(p, kind)
+                    out.append("value:" + repr(v))
+                except D.SchedAbort:
+                    out.append("never-answered")
+                    raise
+                except BaseException as e:  # noqa
+                    out.append(type(e).__name__)
+            return run
+        desc = mgr.rpc_object().rpc_object_descriptor
+        reqs = [("local", k) for k in spec["local"]] + [("peer", k) for k in spec["peer"]]
+        threads = [w.spawn(mk_req(wh, k), "requester") for wh, k in reqs]
+        w.sched.yield_point("c12.queued.all", blocked_on=lambda: len(worker._fifo) >= len(reqs))
+        res["queued"] = len(worker._fifo)
+
+        def opener():
+            w.sched.yield_point("c12.queued.open", blocked_on=lambda: worker._shutdown_requested)
+            st["ev"].set()
+        op = w.spawn(opener, "opener")
+        res["action"] = r.do(["stop"] if spec["action"] == "stop" else ["remove", 1])
+        for t in threads + [th, op]:
+            t.join()
+        res["hold"] = hold_out
+        res["relc"] = rec.rel_count.get(mgr._c12_id, 0)
+        res["worker_done"] = _done(worker)
+        if cli is not None:
+            cli.stop()
+        if ctx._active:
+            res["final_stop"] = r.do(["stop"])
+        res["thr_end"] = thread_counts(rec)
+        res["stray"] = stray_s()
+        return res
+
+    out = _run(seed, body, policy=policy, change_points=change_points, max_steps=60000)
+    tr.deadlock = out.deadlock or ("step budget exceeded" if out.budget else None)
+    tr.error = out.error
+    tr.calls = out.value
+    tr.thread_errors = [(n, type(e).__name__) for n, e in out.thread_errors]
+    by_thread = {}
+    for th, ev, rs in REC.mevents:
+        if th is not None:
+            by_thread.setdefault(id(th), (th, []))[1].append((ev, rs))
+    for th, evs in by_thread.values():
+        tr.lines.append("mnew")
+        tr.impl.append("ok")
+        for ev, rs in evs:
+            tr.lines.append("m " + ev)
+            tr.impl.append(rs)
+        if tr.deadlock is None:
+            tr.lines.append("mend")
+            tr.impl.append(f"exited={int(_done(th))} fifo={len(th._fifo)} unanswered=0")
+    return tr
+
+
+def oracle_queued(spec: dict, tr: Trace):
+    kinds = "+".join(sorted(set(spec["local"]) | set(spec["peer"])))
+    if tr.deadlock is not None:
+        died = ",".join(sorted({t for _n, t in tr.thread_errors})) or "-"
+        return [(f"queued:hang:{spec['action']}",
+                 f"{spec['action']}() of a busy object with queued requests ({kinds}) never completed / a requester was never answered; "
+                 f"threads that died: {died}; {tr.deadlock[:250]}", 0)]
+    res = tr.calls
+    bad = []
+    if any(o != "ok" for o in res["setup"]):
+        bad.append(("queued:setup-fails", f"{res['setup']}", 0))
+    if res["action"] != "ok":
+        bad.append((f"queued:{spec['action']}-raises:{res['action'][4:]}", f"{spec['action']}() raised {res['action']}", 0))
+    for where, kind, out in res["req"]:
+        if len(out) != 1 or out[0] == "never-answered":
+            bad.append((f"queued:request-not-answered:{kind}", f"{where} {kind} request queued behind a running method: {out}", 0))
+        elif not out[0].startswith("value:") and out[0] != "QMI_MessageDeliveryException":
+            bad.append((f"queued:request-outcome:{kind}:{out[0]}", f"{where} {kind} request queued at {spec['action']}(): {out[0]}", 0))
+    if res["relc"] != 1:
+        bad.append(("queued:release-count", f"the busy object was released {res['relc']} times", 0))
+    if not res["worker_done"]:
+        bad.append(("queued:worker-alive", "the object's thread is still alive", 0))
+    if tr.thread_errors:
+        bad.append(("queued:thread-died:" + ",".join(sorted({t for _n, t in tr.thread_errors})), f"{tr.thread_errors}", 0))
+    if res["thr_end"] != (0, 0, 0) or res["stray"]:
+        bad.append(("queued:threads-left", f"{res['thr_end']}{res['stray']}", 0))
     return bad
 
 
@@ -2271,7 +2484,8 @@ def oracle_singleton(tr: Trace):
         if "stray" in d:
             bad.append((f"stray-thread:{k}", f"threads not accounted for after {op}: {d['stray']}", i))
         if k == "qstart":
-            _, valid, cfg_tcp, tcpF, udpF, peers = op
+            _, valid, cfg_tcp, tcpF, udpF, peers = op[:6]
+            logF = op[6] if len(op) > 6 else 0
             if single:
                 if out != "exc:QMI_UsageException":
                     bad.append(("qstart-twice-not-usage-error", f"qmi.start() with a context present: {out}", i))
@@ -2279,6 +2493,8 @@ def oracle_singleton(tr: Trace):
                 fk = None
                 if not valid:
                     fk = "name"
+                elif logF:
+                    fk = "logging"
                 elif cfg_tcp and tcpF:
                     fk = "tcp"
                 elif udpF:
@@ -2373,6 +2589,8 @@ def run_case(case: dict) -> Trace:
     if k == "mm":
         return run_mm(case["seed"], case["cfg_tcp"], case["pop"], case["mk1"], case["mk2"], policy=case.get("policy", "weighted"),
                       change_points=case.get("change_points"))
+    if k == "queued":
+        return run_queued(case["seed"], case["spec"], policy=case.get("policy", "weighted"), change_points=case.get("change_points"))
     if k == "acts":
         return run_acts(case["seed"], case["spec"], policy=case.get("policy", "weighted"), change_points=case.get("change_points"))
     if k == "busy":
@@ -2391,6 +2609,8 @@ def oracle(case: dict, tr: Trace):
         return oracle_busy(case["spec"], tr)
     if case["kind"] == "acts":
         return oracle_acts(case["spec"], tr)
+    if case["kind"] == "queued":
+        return oracle_queued(case["spec"], tr)
     return {"hist": oracle_history, "single": oracle_singleton, "conc": oracle_conc}[case["kind"]](tr)
 
 
@@ -2465,6 +2685,11 @@ DIRECTED_HIST = [
              ["make", "task", 2, "b-1", 0, 1, "raise", 0], ["tstart", 2], ["tjoin", 2], ["tjoin", 2], ["tstart", 2],
              ["make", "task", 3, "c_(2)", 0, 0, "finish", 0], ["tstart", 3], ["tstart", 3], ["tjoin", 3], ["iopen", 3], ["stop"], ["probe"]]),
 ]
+
+DIRECTED_SINGLE_LOG = [
+    [["qstart", True, cfg_tcp, 0, 0, [], logF], ["qcontext"], ["qstop"], ["qprobe", cfg_tcp]]
+    for logF, cfg_tcp in (("logdir", True), ("loglevel", False), ("console", True), ("loglevels", False))
+] + [[["qstart", False, False, 0, 0, [], "loglevel"], ["qstart", True, False, 0, 0, [], "logdir"], ["qstart", True, False, 0, 0, []], ["qstop"], ["qprobe", False]]]
 
 DIRECTED_SINGLE = [
     [["qstart", True, True, 0, 0, []]] + [["q", ["addh", "exc", sh]] for sh in CALLABLE_SHAPES] +
@@ -2667,6 +2892,44 @@ class C12(Prop):
                                             replay={**case, "expect": sig}))
         return n
 
+    def _queued(self, res: Result, seeds: int, seed0: int) -> int:
+        """a busy object with queued requests of every kind at remove()/stop(): oracle + event-trace refinement"""
+        cases = [{"kind": "queued", "seed": seed0 + 100 * i + sd, "spec": spec, "policy": "pct" if sd % 3 == 2 else "weighted"}
+                 for i, spec in enumerate(QUEUE_SPECS) for sd in range(seeds)]
+        traces = []
+        n = 0
+        for case in cases:
+            tr = run_case(case)
+            if tr.error is not None:
+                raise tr.error
+            n += 1
+            traces.append((case, tr))
+            res.traces_validated += 1
+            res.count("scenarios_queued")
+            for kind in case["spec"]["local"]:
+                res.count("queued_request_local_" + kind)
+            for kind in case["spec"]["peer"]:
+                res.count("queued_request_peer_" + kind)
+            res.note_case(("queued", repr(case)), nontrivial=True)
+            for sig, det, _i in oracle(case, tr):
+                if self._seen.get(sig, 0) >= 1:
+                    self._seen[sig] += 1
+                    continue
+                self._seen[sig] = 1
+                res.failures.append(Failure(signature=sig, summary=f"{sig}: {det[:500]} | case={_short(case)}", replay={**case, "expect": sig}))
+        lines = [l for _c, tr in traces for l in tr.lines]
+        model = LeanDriver(self.driver).run(lines) if lines else []
+        k = 0
+        for case, tr in traces:
+            for j, (l, a) in enumerate(zip(tr.lines, tr.impl)):
+                if a != model[k + j]:
+                    if sum(1 for x in res.broken if x.name.startswith("Mgr.mstep")) < 4:
+                        res.broken.append(Broken("correspondence", "Mgr.mstep vs RpcObjectManager/_RpcThread (queued requests)",
+                                                 f"event {j} `{l}`: impl {a!r} model {model[k + j]!r}; trace: {tr.lines[max(0, j - 10):j + 1]}", case=case))
+                    break
+            k += len(tr.lines)
+        return n
+
     def _acts(self, res: Result, seeds: int, seed0: int) -> int:
         """release steps / task bodies / stop handlers acting on the context (oracle only)"""
         return self._oracle_only(res, [{"kind": "acts", "seed": seed0 + 100 * i + sd, "spec": spec, "policy": "pct" if sd % 3 == 2 else "weighted"}
@@ -2702,6 +2965,7 @@ class C12(Prop):
     def _diff(self, res: Result, batch: list) -> None:
         drv = LeanDriver(self.driver)
         lines, spans = [], []
+        batch = [(c, t) for c, t in batch if not getattr(t, "no_model", False)]
         for case, tr in batch:
             spans.append((len(lines), case, tr))
             lines += tr.lines
@@ -2741,7 +3005,10 @@ class C12(Prop):
                           "BaseException); stop handlers are every kind of callable; release steps, task bodies and stop handlers that act on the context "
                           "(remove / make / look up / call other objects, stop() re-entrantly; creation order != ownership order) — oracle only; "
                           "REAL loopback sockets: fixed tcp_server_port, 0-2 incoming / outgoing peer connections established at stop, server or "
-                          "clients first, immediate restart on the same port, SO_REUSEADDR read back and checked to be set before bind. After every op the "
+                          "clients first, immediate restart on the same port, SO_REUSEADDR read back and checked to be set before bind; a busy object with "
+                          "queued requests of every kind it accepts (method call, lock, unlock, force_unlock, is_locked, with/without tokens; local "
+                          "and from a peer) at remove()/stop(), trace-refined against the manager/worker model; qmi.start() with a logging "
+                          "configuration that cannot be applied (start step _init_logging). After every op the "
                           "abstract state read from the real objects is compared with the model. Non-trivial = contains a stop, remove, failed "
                           "start or race; distinct by (kind, ops, faults, gate).")
         self._seen = {}
@@ -2753,7 +3020,7 @@ class C12(Prop):
         for cfg_tcp, ops in DIRECTED_HIST:
             case = {"kind": "hist", "seed": seed0 + n, "cfg_tcp": cfg_tcp, "ops": ops}
             self._add(res, batch, case, run_case(case)); n += 1
-        for ops in DIRECTED_SINGLE:
+        for ops in DIRECTED_SINGLE + DIRECTED_SINGLE_LOG:
             case = {"kind": "single", "seed": seed0 + n, "ops": ops}
             self._add(res, batch, case, run_case(case)); n += 1
         for _ in range(ctx.scale(1250, 12000)):
@@ -2785,6 +3052,7 @@ class C12(Prop):
         ctx.log(f"layer D done: {n} scenarios")
         n += self._busy(res, ctx, seeds=ctx.scale(6, 60), seed0=seed0 + 700000, stride=ctx.scale(2, 1))
         n += self._acts(res, seeds=ctx.scale(6, 40), seed0=seed0 + 800000)
+        n += self._queued(res, seeds=ctx.scale(6, 40), seed0=seed0 + 850000)
         n += self._real(res, rounds=ctx.scale(1, 5))
         ctx.log(f"busy objects, acting release steps, real sockets done: {n} scenarios")
         self._diff(res, batch)
@@ -2839,6 +3107,7 @@ class C12(Prop):
         self._calls(res, ctx, seeds=range(2), stride=1, randoms=20, seed0=seed0 + 900000)
         self._busy(res, ctx, seeds=30, seed0=seed0 + 950000, stride=1)
         self._acts(res, seeds=30, seed0=seed0 + 960000)
+        self._queued(res, seeds=30, seed0=seed0 + 970000)
         self._real(res, rounds=3)
         return res
 
@@ -2873,7 +3142,7 @@ def i_prev_state(tr: Trace, ob):
 
 def _short(case: dict) -> str:
     c = dict(case)
-    if c.get("kind") in ("busy", "acts"):
+    if c.get("kind") in ("busy", "acts", "queued"):
         return repr({k: v for k, v in c.items()})
     if c.get("kind") == "calls":
         sp = c["spec"]
